@@ -2,12 +2,14 @@ package main
 
 import (
 	"fmt"
-	"sync"
 	"go/constant"
 	"go/token"
 	"go/types"
+	"os"
+	"regexp"
 	"sort"
 	"strings"
+	"sync"
 
 	"golang.org/x/tools/go/packages"
 	"golang.org/x/tools/go/ssa"
@@ -16,15 +18,15 @@ import (
 
 // Engine holds the loaded program and the contracts.
 type Engine struct {
-	prog    *ssa.Program
-	pkg     *ssa.Package
-	tpkg    *types.Package
-	fset    *token.FileSet
-	cf      *ContractFile
-	repo    string
-	funcs   map[string]*ssa.Function // by contract name: "isReady", "RunPlan$1", "(*PlanInput).Validate"
-	typeMem map[string]types.Type
-	wsMemo  map[*ssa.Function]map[string]bool
+	prog      *ssa.Program
+	pkg       *ssa.Package
+	tpkg      *types.Package
+	fset      *token.FileSet
+	cf        *ContractFile
+	repo      string
+	funcs     map[string]*ssa.Function // by contract name: "isReady", "RunPlan$1", "(*PlanInput).Validate"
+	typeMem   map[string]types.Type
+	wsMemo    map[*ssa.Function]map[string]bool
 	initFacts []initFact
 	initDone  bool
 	roMemo    map[*ssa.Global]bool
@@ -281,9 +283,13 @@ type Obligation struct {
 	Result   *SolverResult
 	Finding  string
 	Blk      *ssa.BasicBlock
+	Label    string   // clause label (contract clauses only)
+	Uses     []string // labels of the clauses its proof relies on
 }
 
 type Enc struct {
+	topFrame    *Frame
+	closedSeen  map[string]bool
 	eng         *Engine
 	top         *ssa.Function
 	decls       []string
@@ -316,6 +322,8 @@ type Enc struct {
 	allocLog    []Term
 	elemsSeen   map[string]bool
 	assertBlk   []*ssa.BasicBlock
+	assertTag   []string // label of the contract clause a quantified assumption comes from
+	assertHeavy []bool   // the assumption binds two or more variables in one quantifier
 	curBlk      *ssa.BasicBlock
 	relMemo     map[*ssa.BasicBlock]map[*ssa.BasicBlock]bool
 	relMu       sync.Mutex
@@ -365,6 +373,44 @@ func (c *Enc) assert(t Term) {
 	}
 	c.asserts = append(c.asserts, t)
 	c.assertBlk = append(c.assertBlk, c.curBlk)
+	c.assertTag = append(c.assertTag, "")
+	c.assertHeavy = append(c.assertHeavy, false)
+}
+
+// pairwiseRe: a quantifier binding two or more variables at once. Such assumptions (pairwise distinctness,
+// injectivity) instantiate quadratically in the number of ground terms and dominate solver time.
+var pairwiseRe = regexp.MustCompile(`\((?:forall|exists) \(\([^\s()]+ [^\s()]+\) \(`)
+
+// assumeClause assumes a contract clause conjunct by conjunct. Conjuncts with a pairwise quantifier are tagged
+// with the clause label: the weakened query variants keep them only for obligations of the same label (the
+// clause's own preservation, or a postcondition named alike); the full query always has them.
+func (c *Enc) assumeClause(guard, g Term, label string) {
+	for _, p := range splitAnd(g.S) {
+		t := Term{p, SBool}
+		if guard.S != "true" {
+			t = Implies(guard, t)
+		}
+		if t.S == "true" {
+			continue
+		}
+		c.assert(t)
+		if hasQuant(p) {
+			c.assertTag[len(c.assertTag)-1] = label
+			c.assertHeavy[len(c.assertHeavy)-1] = pairwiseRe.MatchString(p)
+		}
+	}
+}
+
+func splitAnd(s string) []string {
+	head, args, ok := splitTop(s)
+	if ok && head == "and" {
+		var out []string
+		for _, a := range args {
+			out = append(out, splitAnd(a)...)
+		}
+		return out
+	}
+	return []string{s}
 }
 
 // relevantBlocks: blocks of the top-level function from which control can reach blk along
@@ -408,6 +454,31 @@ func (c *Enc) relevantBlocks(blk *ssa.BasicBlock) map[*ssa.BasicBlock]bool {
 	return m
 }
 
+// localLoop is the innermost loop an obligation belongs to: the loop containing its block; an invariant's
+// entry obligation belongs to the code before the loop, i.e. to the enclosing loop (if any).
+func (c *Enc) localLoop(o *Obligation) *LoopInfo {
+	if c.topFrame == nil || o.Blk == nil || os.Getenv("VERIF_NO_LOOPLOCAL") != "" {
+		return nil
+	}
+	entry := strings.Contains(o.Name, "/entry[")
+	var best *LoopInfo
+	for h, li := range c.topFrame.loops {
+		if !li.blocks[o.Blk] {
+			continue
+		}
+		if entry && h == o.Blk {
+			continue
+		}
+		if best == nil || len(li.blocks) < len(best.blocks) {
+			best = li
+		}
+	}
+	if debugLoops && best != nil {
+		fmt.Fprintf(os.Stderr, "localLoop %s blk=%d -> loop%d header=%d nblocks=%d\n", o.Name, o.Blk.Index, best.ordinal, best.header.Index, len(best.blocks))
+	}
+	return best
+}
+
 func (c *Enc) assume(guard, t Term) { c.assert(Implies(guard, t)) }
 
 func (c *Enc) oblige(name, kind string, guard, goal Term, text string) *Obligation {
@@ -418,6 +489,13 @@ func (c *Enc) oblige(name, kind string, guard, goal Term, text string) *Obligati
 	if kind == "safe" || kind == "requires" {
 		c.assert(Implies(guard, goal))
 	}
+	return o
+}
+
+// obligeClause: an obligation generated from a labelled contract clause.
+func (c *Enc) obligeClause(cl *Clause, name, kind string, guard, goal Term, text string) *Obligation {
+	o := c.oblige(name, kind, guard, goal, text)
+	o.Label, o.Uses = cl.Label, cl.Uses
 	return o
 }
 
@@ -537,11 +615,76 @@ func (c *Enc) havoc(st *State, name string) Term {
 }
 
 // names of heap variables
+// allocFormula: every reference inside value v of Go type t lies in [0, n0).
+func (c *Enc) allocFormula(t types.Type, v Term, n0 Term) Term {
+	if isTimeType(t) {
+		return True
+	}
+	switch u := t.Underlying().(type) {
+	case *types.Pointer, *types.Map:
+		return And(Le(IntLit(0), v), Lt(v, n0))
+	case *types.Slice:
+		return And(Le(IntLit(0), slArr(v)), Lt(slArr(v), n0), Le(IntLit(0), slOff(v)), Le(IntLit(0), slLen(v)), Le(slLen(v), slCap(v)),
+			Implies(Eq(slArr(v), IntLit(0)), Eq(slCap(v), IntLit(0))))
+	case *types.Struct:
+		if u.NumFields() == 0 {
+			return True
+		}
+		si := c.structInfoOf(t)
+		parts := []Term{}
+		for _, f := range si.fields {
+			if g := c.allocFormula(f.typ, Term{app(string(si.sort)+"_"+f.name, v), f.sort}, n0); g.S != True.S {
+				parts = append(parts, g)
+			}
+		}
+		if len(parts) == 0 {
+			return True
+		}
+		return And(parts...)
+	}
+	return True
+}
+
+// heapClosed (option heap-closed): every reference stored in the entry heap was allocated before entry.
+// This is a property of the memory model (a reference can only be stored after it was allocated), stated
+// for the entry state of each heap the function touches.
+func (c *Enc) heapClosed(name string, elemT types.Type, depth int, keySort Sort) {
+	if !c.option("heap-closed") {
+		return
+	}
+	if c.closedSeen == nil {
+		c.closedSeen = map[string]bool{}
+	}
+	if c.closedSeen[name] {
+		return
+	}
+	c.closedSeen[name] = true
+	c.heapVar("nextRef", SInt)
+	n0 := c.heapInit["nextRef"]
+	init := c.heapInit[name]
+	var sel, binders string
+	switch depth {
+	case 1:
+		sel = app("select", init, Term{"hc!r", SInt})
+		binders = "((hc!r Int))"
+	case 2:
+		ks := string(keySort)
+		sel = fmt.Sprintf("(select (select %s hc!r) hc!k)", init.S)
+		binders = fmt.Sprintf("((hc!r Int) (hc!k %s))", ks)
+	}
+	g := c.allocFormula(elemT, Term{sel, c.sortOf(elemT)}, n0)
+	if g.S == True.S {
+		return
+	}
+	c.assert(Term{fmt.Sprintf("(forall %s (! %s :pattern (%s)))", binders, g.S, sel), SBool})
+}
+
 func (c *Enc) fieldHeap(structT types.Type, field int) (string, Sort, types.Type) {
 	si := c.structInfoOf(structT)
 	f := si.fields[field]
 	name := "F_" + si.name + "_" + f.name
 	c.heapVar(name, ArraySort(SInt, f.sort))
+	c.heapClosed(name, f.typ, 1, SInt)
 	return name, f.sort, f.typ
 }
 
@@ -554,6 +697,7 @@ func (c *Enc) mapHeaps(mapT types.Type) (dom, val string, ks, vs Sort) {
 	val = "MV_" + key
 	c.heapVar(dom, ArraySort(SInt, ArraySort(ks, SBool)))
 	c.heapVar(val, ArraySort(SInt, ArraySort(ks, vs)))
+	c.heapClosed(val, m.Elem(), 2, ks)
 	return
 }
 
@@ -573,6 +717,7 @@ func (c *Enc) elemHeap(elemT types.Type) (string, Sort) {
 		}
 	}
 	c.heapVar(name, ArraySort(SInt, ArraySort(SInt, es)))
+	c.heapClosed(name, elemT, 2, SInt)
 	return name, es
 }
 
@@ -580,6 +725,7 @@ func (c *Enc) boxHeap(t types.Type) (string, Sort) {
 	s := c.sortOf(t)
 	name := "BX_" + typeKey(t)
 	c.heapVar(name, ArraySort(SInt, s))
+	c.heapClosed(name, t, 1, SInt)
 	return name, s
 }
 
@@ -644,7 +790,7 @@ func (c *Enc) elemsOf(inner, off, ln Term, es Sort) Term {
 		x := Term{strings.TrimSuffix(strings.TrimPrefix(ln.S, "(+ "), " 1)"), SInt}
 		if balancedSingle(x.S) {
 			prev := c.elemsOf(inner, off, x, es)
-			last := Select(inner, Add(off, x), es)
+			last := Select(inner, pos(off, x), es)
 			c.assert(Implies(Le(IntLit(0), x), Eq(t, Store(prev, last, True))))
 		}
 	}
@@ -761,18 +907,73 @@ func (c *Enc) literalAxioms() string {
 	return b.String()
 }
 
-func (c *Enc) queryFor(o *Obligation) string {
+// Query modes: which assumptions accompany an obligation. Every mode is a subset of the assumptions of
+// modeFull, so an `unsat` answer in any mode is a proof; only modeFull answers `sat` meaningfully.
+const (
+	modeFull  = iota // everything on the paths to the obligation (CFG relevance only)
+	modeLocal        // + loop-local: inside a loop, quantified facts from outside the loop are dropped
+	modePost         // + after a loop, quantified facts from before that loop are dropped
+	modeSelf         // + of the quantified contract clauses only those the obligation's clause names (itself and its uses)
+)
+
+// idx(o, i) = o + i: see pos.
+const idxPrelude = "(declare-fun idx (Int Int) Int)\n(assert (forall ((io Int) (ii Int)) (! (= (idx io ii) (+ io ii)) :pattern ((idx io ii)))))\n"
+
+// relies: the obligation's clause is label or lists it among its uses.
+func (o *Obligation) relies(label string) bool {
+	if o.Label == label || (o.Label == "" && strings.Contains(o.Name, "["+label+"]")) {
+		return true
+	}
+	for _, u := range o.Uses {
+		if u == label {
+			return true
+		}
+	}
+	return false
+}
+
+func (c *Enc) queryFor(o *Obligation) string { return c.queryForMode(o, modeFull) }
+
+func (c *Enc) queryForMode(o *Obligation, mode int) string {
 	var b strings.Builder
 	b.WriteString(c.prelude())
 	b.WriteString("(declare-fun strLen (Int) Int)\n(assert (= (strLen 0) 0))\n")
+	b.WriteString(idxPrelude)
 	for _, d := range c.decls {
 		b.WriteString(d)
 		b.WriteString("\n")
 	}
 	b.WriteString(c.literalAxioms())
 	rel := c.relevantBlocks(o.Blk)
+	var local *LoopInfo
+	var before map[*ssa.BasicBlock]bool
+	if mode >= modeLocal {
+		local = c.localLoop(o)
+	}
+	if mode >= modePost {
+		before = c.beforeLastLoop(o)
+	}
 	for i, a := range c.asserts[:o.NAsserts] {
-		if blk := c.assertBlk[i]; blk != nil && !rel[blk] {
+		blk := c.assertBlk[i]
+		if blk != nil && !rel[blk] {
+			continue
+		}
+		// loop-local reasoning: an obligation inside a loop is proved from the loop's invariants (assumed at the
+		// header) and the loop body; quantified facts established before the loop are not carried in unless an
+		// invariant restates them.
+		if local != nil && blk != nil && !local.blocks[blk] && hasQuant(a.S) {
+			if debugLoops && strings.Contains(a.S, "at_b18!") {
+				fmt.Fprintf(os.Stderr, "drop(local) blk=%d %s\n", blk.Index, a.S[:60])
+			}
+			continue
+		}
+		if before != nil && blk != nil && before[blk] && hasQuant(a.S) {
+			continue
+		}
+		if mode >= modeLocal && c.assertHeavy[i] && !o.relies(c.assertTag[i]) {
+			continue
+		}
+		if mode >= modeSelf && c.assertTag[i] != "" && !o.relies(c.assertTag[i]) {
 			continue
 		}
 		b.WriteString("(assert ")
@@ -786,3 +987,44 @@ func (c *Enc) queryFor(o *Obligation) string {
 	b.WriteString("))\n")
 	return b.String()
 }
+
+// beforeLastLoop: the blocks that precede the last loop the obligation's block comes after (nil if none).
+func (c *Enc) beforeLastLoop(o *Obligation) map[*ssa.BasicBlock]bool {
+	if c.topFrame == nil || o.Blk == nil {
+		return nil
+	}
+	entry := strings.Contains(o.Name, "/entry[")
+	var best *LoopInfo
+	for h, li := range c.topFrame.loops {
+		if li.blocks[o.Blk] && !(entry && h == o.Blk) {
+			continue // inside this loop, not after it
+		}
+		if entry && h == o.Blk {
+			continue
+		}
+		if !h.Dominates(o.Blk) {
+			continue
+		}
+		if best == nil || best.header.Dominates(h) {
+			best = li
+		}
+	}
+	if best == nil {
+		return nil
+	}
+	m := map[*ssa.BasicBlock]bool{}
+	for b := range c.relevantBlocks(best.header) {
+		if b != best.header {
+			m[b] = true
+		}
+	}
+	return m
+}
+
+func init() {
+	if os.Getenv("EVDEBUG_LOOPS") != "" {
+		debugLoops = true
+	}
+}
+
+var debugLoops bool
